@@ -224,6 +224,22 @@ impl Channel {
     }
 }
 
+#[cfg(feature = "verif-hooks")]
+impl Channel {
+    /// (state, owner, capacity) of both ends; state: 0 = unclaimed, 1 = claimed, 2 = closed.
+    pub(crate) fn verif_ends(&self) -> [(u8, Option<&ConnectionId>, u32); 2] {
+        fn end(state: &ChannelEndState) -> (u8, Option<&ConnectionId>, u32) {
+            match state {
+                ChannelEndState::Unclaimed => (0, None, 0),
+                ChannelEndState::Claimed { owner, capacity } => (1, Some(owner), *capacity),
+                ChannelEndState::Closed => (2, None, 0),
+            }
+        }
+
+        [end(&self.sender), end(&self.receiver)]
+    }
+}
+
 #[derive(Debug, PartialEq, Eq)]
 pub(crate) enum SendItemError {
     InvalidSender,
